@@ -106,7 +106,12 @@ func run(tapeJSON json.RawMessage, res *core.Result) {
 	net := world.NewNet()
 	var addrs, kpAddrs []string
 	for i := 0; i < tp.NKDC; i++ {
-		addrs = append(addrs, fmt.Sprintf("10.0.0.%d:88", i+1))
+		switch tp.KDCForm {
+		case "v6-noport", "v6-bare-noport", "v6-port":
+			addrs = append(addrs, fmt.Sprintf("[fd00::%d]:88", i+1))
+		default:
+			addrs = append(addrs, fmt.Sprintf("10.0.0.%d:88", i+1))
+		}
 		kpAddrs = append(kpAddrs, fmt.Sprintf("10.0.1.%d:464", i+1))
 	}
 	// the change-password servers of the realm (reference implementation of RFC 3244), one per KDC
@@ -123,7 +128,21 @@ func run(tapeJSON json.RawMessage, res *core.Result) {
 	simnet.Install(net)
 	limit := map[string]int{"tcp-only": 1, "tcp-first": 20, "udp-first": 32000}[tp.Limit]
 	yes := true
-	cm := gk.ConfModel{DefaultRealm: "SIM.TEST", UDPLimit: limit, NoAddresses: &yes, Realms: map[string][]string{"SIM.TEST": addrs},
+	// how krb5.conf names the KDCs: the default port may be left out, an IPv6 address may come with or
+	// without brackets
+	confKDCs := append([]string{}, addrs...)
+	for i := range confKDCs {
+		switch tp.KDCForm {
+		case "v4-noport", "v6-noport":
+			confKDCs[i] = strings.TrimSuffix(confKDCs[i], ":88")
+		case "v6-bare-noport":
+			confKDCs[i] = strings.Trim(strings.TrimSuffix(confKDCs[i], ":88"), "[]")
+		}
+	}
+	if tp.KDCForm != "" {
+		res.Probes["kdc-named-without-port-or-as-ipv6-address"]++
+	}
+	cm := gk.ConfModel{DefaultRealm: "SIM.TEST", UDPLimit: limit, NoAddresses: &yes, Realms: map[string][]string{"SIM.TEST": confKDCs},
 		KPasswd: map[string][]string{"SIM.TEST": kpAddrs}, DomainRealm: map[string]string{".sim.test": "SIM.TEST"}, TktEtypes: []string{gk.EtypeNames[18]}, TGSEtypes: []string{gk.EtypeNames[18]}}
 	cfg, _, err := cm.Parse()
 	if err != nil {
@@ -180,13 +199,16 @@ func run(tapeJSON json.RawMessage, res *core.Result) {
 		if tp.Phase == "tgs" {
 			// log in over a healthy network first, then let the faults in
 			if err := cl.Login(); err != nil {
-				if tp.BigTkt > 0 {
-					// every configured KDC answers correctly over every transport: the size of the
-					// answer is the only thing out of the ordinary
-					engine.Violate(res, "answer-not-returned|all-endpoints-answer|large-reply|"+tp.Limit, map[string]interface{}{"err": err.Error(), "ticket_authdata_bytes": tp.BigTkt})
-					return
+				// every configured KDC answers correctly over every transport: whatever is out of the
+				// ordinary (the size of the answer, how krb5.conf names the servers) does not excuse a failure
+				what := "plain"
+				switch {
+				case tp.KDCForm != "":
+					what = "kdc-form-" + tp.KDCForm
+				case tp.BigTkt > 0:
+					what = "large-reply"
 				}
-				res.Verdict, res.Harness = "harness-error", "healthy login failed: "+err.Error()
+				engine.Violate(res, "answer-not-returned|all-endpoints-answer|"+what+"|"+tp.Limit, map[string]interface{}{"err": err.Error(), "ticket_authdata_bytes": tp.BigTkt, "kdc_form": tp.KDCForm})
 				return
 			}
 		}
@@ -434,7 +456,10 @@ func run(tapeJSON json.RawMessage, res *core.Result) {
 		if panicMsg != "" {
 			kind = "panic"
 		}
-		if tp.BigTkt > 0 && kind == "must-succeed-but-failed" {
+		if tp.KDCForm != "" && (kind == "must-succeed-but-failed" || kind == "krb-error-not-surfaced" || kind == "refusal-of-the-server-not-surfaced") {
+			// how krb5.conf names the servers matters more than the shape of the endpoint assignment
+			engine.Violate(res, kind+"|"+tp.Limit+"|kdc-form-"+tp.KDCForm, d)
+		} else if tp.BigTkt > 0 && kind == "must-succeed-but-failed" {
 			// the shape of the endpoint assignment matters less than the size of the answer
 			engine.Violate(res, kind+"|"+tp.Limit+"|large-reply", d)
 		} else {
